@@ -41,6 +41,7 @@ def run(ctx):
                 for s, grp in (("obj", ["xy", "rows"]), ("rowsH", ["rowsH"]), ("sparse", ["sparse"]), ("csv", ["csv", "csvH"]),
                                ("arff", ["arff"]), ("sp-text", ["arffS", "libsvm", "manik"]))]
         runs.append(("takes3", {"Takes <- TakesQuick": "Takes <- TakesRest", "Shapes <- ShapesQuick": "Shapes <- ShapesFull"}))
+        runs.append(("upper3", {'SpellRule = "alt"': 'SpellRule = "upper"', "XKs <- XKsQuick": "XKs <- XKsAll"}))   # every given type in upper case
         runs.append(("rows5", {"MaxRows = 3": "MaxRows = 5", "Takes <- TakesQuick": "Takes <- TakesTwo", "Shapes <- ShapesQuick": "Shapes <- ShapesOne",
                                "Srcs <- AllSrcs": 'Srcs = {"xy", "rowsH", "sparse", "csvH", "arff", "libsvm"}'}))
     total = 0
@@ -66,6 +67,7 @@ def run(ctx):
     ctx.traces += total
     ctx.exhaustive = True
     ctx.assumptions += [
+        "a given label type is spelled in lower or upper case alternately (parity of n + first label choice), so every configuration of source x label kind x type x shape x by x take is read with both spellings through all three constructions; the thorough tier adds a run with every type in upper case",
         "labels of one dataset have one type (Python cannot sort int against str); label sets are lists without repetition",
         "a categorical label's declared levels are taken as the label set of the data (ARFF nominal declaration), in any fixed order",
         "the order of the action set is only required to be the same in every interaction, not to be a particular order",
